@@ -4,6 +4,7 @@ CONSTANTS
   Modes = {"independent", "cumulative"}
   MaxNext = 5
   MaxSep = 1
+  MinMarkers = 0
   LineKinds = {"c", "m", "f"}
   Flags = {}
 INVARIANT Lossless
